@@ -123,6 +123,31 @@ td_consistent!(c15_td_consistent_1, 1);
 td_consistent!(c15_td_consistent_2, 2);
 td_consistent!(c15_td_consistent_3, 3);
 
+// one CONCRETE digest with unequal outer weights (4, 6, 3; means 0, 10, 20; min -2, max 26), q on the grid j/104:
+// the two tails and the interior agree with cdf, stay in range and are monotone
+harness! {
+    #[kani::unwind(6)]
+    fn c15_td_concrete_weighted_grid_q() {
+        let mut d = TDigestInner::new(K0::new(10.), 100);
+        d.centroids.push(Centroid { sum: 0., count: 4. });
+        d.centroids.push(Centroid { sum: 60., count: 6. });
+        d.centroids.push(Centroid { sum: 60., count: 3. });
+        d.min = -2.; d.max = 26.; d.n_samples = 13;
+        let q1 = grid(0, 104, 104.);        // q on j/104: 13 total weight x 8 steps per unit of weight
+        let q2 = grid(0, 104, 104.);
+        assume(q1 <= q2);
+        let v1 = d.quantile(q1);
+        let v2 = d.quantile(q2);
+        assert!(v1 >= -2. - TOL && v2 <= 26. + TOL, "C15 quantile lies within [min, max]");
+        assert!(v1 <= v2 + TOL, "C15 quantile is non-decreasing in q");
+        let back = d.cdf(v1);
+        let diff = if back > q1 { back - q1 } else { q1 - back };
+        assert!(diff <= 1e-6, "C15 cdf(quantile(q)) is q, including both tails");
+        vcover!(q1 > 0.9 && q1 < 1., "inside the right tail");
+        vcover!(q1 > 0. && q1 < 0.1, "inside the left tail");
+    }
+}
+
 harness! {
     fn c15_td_empty() {
         let d = TDigestInner::new(K0::new(10.), 3);
